@@ -92,8 +92,11 @@ def _against_compile_map(ops: list[list[Any]], text: str, md: dict[int, tuple[in
             own = _OWN.get(nm) or nm
             at_start = lines[mc.line][:mc.column].strip(" ") == ""
             if at_start and (here.startswith(own) if nm in _OWN else (here.startswith(nm + "(") or here.startswith(nm + "<"))):
-                return ("map-missing", f"op {nm}@{a.offset} is printed as its own statement on line {mc.line} ({here[:30]!r}) but has "
-                                       f"no source-map entry")
+                kind = "map-missing"
+                if nm == "Jump" and any(o.offset == a.params[-1] for r in ops if any(x is a for x in r) for o in r):
+                    kind = "map-missing-local-jump"  # recorded finding C09-local-jump-no-entry
+                return (kind, f"op {nm}@{a.offset} is printed as its own statement on line {mc.line} ({here[:30]!r}) but has "
+                              f"no source-map entry")
             continue
         if d[0] != mc.line:
             return ("map-line", f"op {a.op_code.name}@{a.offset}: the decompiler's map says line {d[0]} "
@@ -107,6 +110,8 @@ def classify(r: dict[str, Any]) -> str | None:
     inside `with (..) { return; }` is printed by ctx.py without registration - recorded finding)"""
     if r.get("kind") == "map-line":
         return None
+    if r.get("kind") == "map-missing-local-jump":
+        return "C09-local-jump-no-entry"
     if r.get("kind") == "map-missing":
         return "C02-ctx-before-special-op" if "ctx-before-special-op" in (r.get("classes") or []) else None
     return pC02.classify(r)
